@@ -13,7 +13,7 @@ PROP = 'C09'
 LEVEL = 'model_checking'
 RULE = ('states = canonical form of the real Circuit (node list with kinds and pin lists, line list, io list); transitions = public edit operations '
         '(Node, Line implicit/explicit on free pins, Line.remove, Node.remove of disconnected nodes, io_nodes append/replace, get_or_add_fork, '
-        'eliminate_1to1_forks, substitute from a menu of 7 implementations (bench-parsed with fork ports; hand-built with port cells and fan-out/alias forks in a row, with and without 1:1 forks eliminated), copy, pickle round trip; the circuit is serialised before every edit and every state reached by an edit is pickle-round-tripped) over name pools; BFS to a depth bound from the '
+        'eliminate_1to1_forks, substitute from a menu of 8 implementations (bench-parsed with fork ports; hand-built with port cells and fan-out/alias forks in a row, with and without 1:1 forks eliminated), copy, pickle round trip; the circuit is serialised before every edit and every state reached by an edit is pickle-round-tripped) over name pools; BFS to a depth bound from the '
         'empty circuit and from seeded non-initial states; distinct_nontrivial = distinct canonical states')
 ASSUMPTIONS = ['well-formed use only: explicit pins on free positions (forks: first free output pin, input pin 0), nodes removed only when disconnected and not a port, '
                'eliminate_1to1_forks only when every single-output non-port fork has a driver, substitute only when pin counts fit',
@@ -35,6 +35,17 @@ def _impl_fork_chain():
     return c
 
 
+def _impl_fork_two_ports():
+    """hand-built implementation in which one internal fork drives a gate and two output ports directly (ports are cells)"""
+    from kyupy.circuit import Circuit, Node, Line
+    c = Circuit('twoports')
+    a = Node(c, 'a', 'input'); y = Node(c, 'y', 'output'); z = Node(c, 'z', 'output'); w = Node(c, 'w', 'output')
+    for n in (a, y, z, w): c.io_nodes.append(n)
+    g = Node(c, 'g', 'BUF1'); s = Node(c, 's'); h = Node(c, 'h', 'INV1')
+    Line(c, a, g); Line(c, g, s); Line(c, s, h); Line(c, s, y); Line(c, s, z); Line(c, h, w)
+    return c
+
+
 def impl_menu():
     from kyupy import bench
     return [
@@ -45,6 +56,7 @@ def impl_menu():
         bench.parse('input(x,y,z) output(q) t=INV1(x) q=OR2(z,t)'),          # ignored input at a position that the designated cell wires internally
         _impl_fork_chain(),                                                  # forks in a row between the gate and the first output port
         _impl_fork_chain(),                                                  # the same, kept as parsed (1:1 alias fork not eliminated)
+        _impl_fork_two_ports(),                                              # one fork feeds a gate and two output ports
     ]
 
 
